@@ -292,6 +292,26 @@ def xnode_value(vf_si, c, o):
              1 if o["opens"][r_idx][1] == 4 else 0]]
 
 
+def replace_cases():
+    """bridge replacement: PRE opens the tunnel id first (normally creating the bridge), B does its lookup / agreement test and is
+    parked at its acknowledgement write, the registered bridge ENDS (ended=True), A (normally the listener of ANOTHER mapping) runs
+    to completion and registers a new bridge under the same client-chosen id, B is released"""
+    pres = [("S", "m2", "right"), ("S", "m2", "none"), ("L", "m1", "right")]
+    bs = [("X", "m2", "right"), ("S", "m2", "right"), ("S", "m2", "none"), ("T", "m1", "right"), ("L", "m1", "none"), ("X", "m2", "prefixall")]
+    as_ = [("L", "m1", "right"), ("L", "m1", "none"), ("S", "m2", "right"), ("S", "m2", "none")]
+    out = []
+    for pre in pres:
+        for b in bs:
+            for a in as_:
+                for ended in (True, False):
+                    out.append({"mode": "race", "pre": dict(who=pre[0], mid=pre[1], secret=pre[2]), "a": dict(who=a[0], mid=a[1], secret=a[2]),
+                                "b": dict(who=b[0], mid=b[1], secret=b[2]), "gate": 0, "end_pre": ended})
+                if a[1] != b[1]:   # also parked at a storage read after the lookup (reads of ONE mapping key are coalesced: different mappings only)
+                    out.append({"mode": "race", "pre": dict(who=pre[0], mid=pre[1], secret=pre[2]), "a": dict(who=a[0], mid=a[1], secret=a[2]),
+                                "b": dict(who=b[0], mid=b[1], secret=b[2]), "gate": 2, "end_pre": True})
+    return out
+
+
 P_RACE = {"mode": "race", "a": dict(who="L", mid="m1", secret="right"), "b": dict(who="X", mid="m2", secret="right"), "gate": 0}
 K_RACE = "race-late-attach-unvalidated"
 K_STALE = "singleflight-stale-read-after-update"
@@ -300,11 +320,20 @@ K_STALE = "singleflight-stale-read-after-update"
 def race_str(c):
     g = {-1: "B runs entirely first", 0: "B parked at its acknowledgement write (after the tunnelBridges lookup, before create/attach)"}.get(
         c["gate"], "B parked at its read #%d of the mapping it names" % c["gate"])
+    if c.get("pre"):
+        return ("PRE=TunnelOpen(%s,%s,%s) first; B=TunnelOpen(%s,%s,%s) on the SAME tunnel id, %s; %sA=TunnelOpen(%s,%s,%s) runs to completion; B is released" % (
+            c["pre"]["who"], c["pre"]["mid"], c["pre"]["secret"], c["b"]["who"], c["b"]["mid"], c["b"]["secret"], g,
+            "the registered bridge ENDS; " if c.get("end_pre") else "", c["a"]["who"], c["a"]["mid"], c["a"]["secret"]))
     return "A=TunnelOpen(%s,%s,%s) B=TunnelOpen(%s,%s,%s) on ONE tunnel id; %s, A runs to completion, B is released" % (
         c["a"]["who"], c["a"]["mid"], c["a"]["secret"], c["b"]["who"], c["b"]["mid"], c["b"]["secret"], g)
 
 
 def race_value(vf_si, late, c, o):
+    enc0 = lambda r: [WHO.index(r["who"]), HMID.index(r["mid"]), SECRETS.index(r["secret"])]
+    if c.get("pre"):
+        if c["gate"] != 0 or not o["b_parked"] or (c.get("end_pre") and not o["ended"] and o["mid_mid"] != 0):
+            return None
+        return [list(vf_si), [96, late], enc0(c["a"]), enc0(c["b"]), enc0(c["pre"]), [bool(c.get("end_pre"))], [o["mid_end"], o["src"], o["tgt"]]]
     if not o["b_parked"]:
         sched = 0
     elif c["gate"] == 0:
@@ -516,7 +545,7 @@ def run(ctx, only_cases=None):
                 rng.shuffle(t2)
                 cases += t2
         corpus_h = [c for c in cases if c.get("mode") == "hist"]
-        races = [P_RACE] + [c for c in cases if c.get("mode") == "race"] + race_cases(rng, thorough)
+        races = [P_RACE] + [c for c in cases if c.get("mode") == "race"] + race_cases(rng, thorough) + replace_cases()
         xcases = [c for c in cases if c.get("mode") == "xnode"] + xnode_cases(rng, thorough)
         cases = [c for c in cases if c.get("mode") not in ("hist", "race", "xnode")]
         hists = corpus_h + directed_histories()
@@ -640,7 +669,7 @@ def run(ctx, only_cases=None):
             continue
         rfail += 1
         nfail += 1
-        key = "race:" + o.get("class", "?") + ":" + "%s-%s-%s_vs_%s-%s-%s_gate%d" % (c["a"]["who"], c["a"]["mid"], c["a"]["secret"], c["b"]["who"], c["b"]["mid"], c["b"]["secret"], c["gate"])
+        key = "race:" + o.get("class", "?") + ":" + ("replace-%s_" % ("ended" if c.get("end_pre") else "kept") if c.get("pre") else "") + "%s-%s-%s_vs_%s-%s-%s_gate%d" % (c["a"]["who"], c["a"]["mid"], c["a"]["secret"], c["b"]["who"], c["b"]["mid"], c["b"]["secret"], c["gate"])
         if len([k for k in reported if k.startswith("race:")]) < 3:
             reported.add(key)
             ctx.violation(key, "real SessionManager.HandlePacket, interleaving [%s]: %s" % (race_str(c), o["prop_msg"]), {"case": c, "observed": o})
@@ -665,22 +694,6 @@ def run(ctx, only_cases=None):
     # (ii) model vs implementation (the variant of the model is the one the witnesses identify)
     hterms = [hist_value([vf, si], h, o) for h, o in zip(hists, houts) if o["prop_ok"] and not o["ambiguous"] and len(o["steps"]) == len(h["steps"])]
     hsrc = [(h, o) for h, o in zip(hists, houts) if o["prop_ok"] and not o["ambiguous"] and len(o["steps"]) == len(h["steps"])]
-    hmism = []
-    try:
-        if hterms:
-            hres, hpred = vlib.model_eval("C04", hterms, predict=True)
-            hmism = [i for i, ok in enumerate(hres) if not ok]
-            hsmall = [i for i in range(len(hterms)) if len(hsrc[i][0]["steps"]) <= 4][:: max(1, len(hterms) // 12)][:12]
-            hvm = sorted(hsmall[k] for k in vlib.vm_crosscheck("C04", [hterms[i] for i in hsmall]))
-            if hvm != sorted(i for i in hsmall if not hres[i]):
-                raise vlib.Broken("extracted runner and vm_compute disagree on the C04 history model", "vm=%s" % hvm)
-            for i in hmism[:2]:
-                ctx.violation("model-mismatch-history", "Corr/C04.check_hist: Model/TunnelOpen.v `run` and the real SessionManager disagree on the history "
-                              "[%s]: model predicts per step [ack, role, snapshot]=%s, observed %s; the history theorems of Properties/C04.v no "
-                              "longer speak about this code" % (hist_str(hsrc[i][0]), hpred[i], [[x["ack"], x["role"], x["snap"]] for x in hsrc[i][1]["steps"]]),
-                              {"case": hsrc[i][0], "observed": hsrc[i][1], "model": hpred[i]}, found_input=False)
-    except vlib.Broken as b:
-        broken = broken or b
     rterms, rsrc = [], []
     for c, o in zip(races, routs):
         if o.get("class") == "setup":
@@ -689,10 +702,53 @@ def run(ctx, only_cases=None):
         if v is not None:
             rterms.append(v)
             rsrc.append((c, o))
+    xterms, xsrc = [], []
+    for c, o in zip(xcases, xouts):
+        v = xnode_value([vf, si], c, o) if o["prop_ok"] else None
+        if v is not None:
+            xterms.append(v)
+            xsrc.append((c, o))
+    terms = [[[vf, si], cell_codes(c), [o["ack"], o["role"], o["entitled"]]] for c, o in zip(cases, outs)]
+    # ONE evaluation of the extracted model over all four families, ONE vm_compute cross-check (every call goes through `make`)
+    evaluated = {}
+    try:
+        allt = hterms + rterms + xterms + terms
+        ares, apred = vlib.model_eval("C04", allt, predict=True) if allt else ([], [])
+        off = 0
+        for name, ts in (("h", hterms), ("r", rterms), ("x", xterms), ("c", terms)):
+            evaluated[name] = (ares[off:off + len(ts)], apred[off:off + len(ts)])
+            off += len(ts)
+        hsmall = [i for i in range(len(hterms)) if len(hsrc[i][0]["steps"]) <= 4][:: max(1, len(hterms) // 12)][:12]
+        small = list(range(0, min(len(PROBES), len(terms)))) + [rng.randrange(len(cases)) for _ in range(24)]
+        rsmall = list(range(0, len(rterms), max(1, len(rterms) // 4)))[:4]
+        xsmall = list(range(0, len(xterms), max(1, len(xterms) // 4)))[:4]
+        vm_terms = [hterms[i] for i in hsmall] + [terms[i] for i in small] + [rterms[i] for i in rsmall] + [xterms[i] for i in xsmall]
+        vm_expect = [evaluated["h"][0][i] for i in hsmall] + [evaluated["c"][0][i] for i in small] + \
+                    [evaluated["r"][0][i] for i in rsmall] + [evaluated["x"][0][i] for i in xsmall]
+        vm_bad = set(vlib.vm_crosscheck("C04", vm_terms)) if vm_terms else set()
+        ext_bad = set(k for k, ok in enumerate(vm_expect) if not ok)
+        if vm_bad != ext_bad:
+            raise vlib.Broken("extracted runner and vm_compute disagree on the C04 model", "vm=%s extracted=%s" % (sorted(vm_bad), sorted(ext_bad)))
+        ctx.coverage["vm_compute_crosschecked_cases"] = len(vm_terms)
+    except vlib.Broken as b:
+        broken = broken or b
+        evaluated = {}
+    hmism = []
+    try:
+        if hterms and "h" in evaluated:
+            hres, hpred = evaluated["h"]
+            hmism = [i for i, ok in enumerate(hres) if not ok]
+            for i in hmism[:2]:
+                ctx.violation("model-mismatch-history", "Corr/C04.check_hist: Model/TunnelOpen.v `run` and the real SessionManager disagree on the history "
+                              "[%s]: model predicts per step [ack, role, snapshot]=%s, observed %s; the history theorems of Properties/C04.v no "
+                              "longer speak about this code" % (hist_str(hsrc[i][0]), hpred[i], [[x["ack"], x["role"], x["snap"]] for x in hsrc[i][1]["steps"]]),
+                              {"case": hsrc[i][0], "observed": hsrc[i][1], "model": hpred[i]}, found_input=False)
+    except vlib.Broken as b:
+        broken = broken or b
     rmism = []
     try:
-        if rterms:
-            rres, rpred = vlib.model_eval("C04", rterms, predict=True)
+        if rterms and "r" in evaluated:
+            rres, rpred = evaluated["r"]
             rmism = [i for i, ok in enumerate(rres) if not ok]
             for i in rmism[:2]:
                 ctx.violation("model-mismatch-interleaving", "Corr/C04.check_race: Model/TunnelRace.v (late_agree=%s) and the real SessionManager disagree on "
@@ -701,16 +757,10 @@ def run(ctx, only_cases=None):
                               {"case": rsrc[i][0], "observed": rsrc[i][1], "model": rpred[i]}, found_input=False)
     except vlib.Broken as b:
         broken = broken or b
-    xterms, xsrc = [], []
-    for c, o in zip(xcases, xouts):
-        v = xnode_value([vf, si], c, o) if o["prop_ok"] else None
-        if v is not None:
-            xterms.append(v)
-            xsrc.append((c, o))
     xmism = []
     try:
-        if xterms:
-            xres, xpred = vlib.model_eval("C04", xterms, predict=True)
+        if xterms and "x" in evaluated:
+            xres, xpred = evaluated["x"]
             xmism = [i for i, ok in enumerate(xres) if not ok]
             for i in xmism[:2]:
                 ctx.violation("model-mismatch-two-node", "Corr/C04.check_cross: Model/TunnelCross.v and the real two-node cluster disagree on [%s]: model predicts "
@@ -719,17 +769,10 @@ def run(ctx, only_cases=None):
                               {"case": {k: v for k, v in xsrc[i][0].items() if k != "shape"}, "observed": xsrc[i][1], "model": xpred[i]}, found_input=False)
     except vlib.Broken as b:
         broken = broken or b
-    terms = [[[vf, si], cell_codes(c), [o["ack"], o["role"], o["entitled"]]] for c, o in zip(cases, outs)]
     mism = []
     try:
-        res, pred = vlib.model_eval("C04", terms, predict=True)
+        res, pred = evaluated.get("c", ([True] * len(terms), [None] * len(terms)))
         mism = [i for i, ok in enumerate(res) if not ok]
-        small = list(range(0, len(PROBES))) + [rng.randrange(len(cases)) for _ in range(30)]
-        vm_bad = sorted(small[k] for k in vlib.vm_crosscheck("C04", [terms[i] for i in small]))
-        ext_bad = sorted(i for i in small if not res[i])
-        if sorted(set(vm_bad)) != sorted(set(ext_bad)):
-            raise vlib.Broken("extracted runner and vm_compute disagree on the C04 model", "vm=%s extracted=%s" % (vm_bad, ext_bad))
-        ctx.coverage["vm_compute_crosschecked_cases"] = len(small)
         for i in mism[:3]:
             if outs[i]["prop_ok"] or classify(cases[i], outs[i], flags) is not None:
                 ctx.violation("model-mismatch", "Corr/C04.check: Model/TunnelOpen.v (validate_first=%s, secret_isvalid=%s) and the real "
@@ -782,6 +825,7 @@ def run(ctx, only_cases=None):
         "interleavings": {"driven": len(races), "b_parked": sum(1 for o in routs if o["b_parked"]),
                           "parked_at_ack_write": sum(1 for c, o in zip(races, routs) if o["b_parked"] and c["gate"] == 0),
                           "both_attached_or_replaced": sum(1 for o in routs if o["src"] and o["tgt"]),
+                          "bridge_replacement_cases": sum(1 for c in races if c.get("pre")), "bridges_ended_while_a_request_was_parked": sum(1 for o in routs if o.get("ended")),
                           "model_vs_impl": len(rterms), "model_vs_impl_mismatches": len(rmism), "predicate_failures": rfail,
                           "known_defect_cases": rknown, "late_agreement_check_present": not late_defect,
                           "samples": [{"case": race_str(c), "observed": {k: o[k] for k in ("b_parked", "ack_a", "ack_b", "mid_end", "src", "tgt", "readers")}}
